@@ -435,6 +435,11 @@ def check(program, rep):
     rep.floor("C17-R3", 20)
     rep.floor("C17-R4", 5)
     rep.floor("C17-R5", 5)
+    # arguments handed to package functions under the wrong name / same-
+    # named optional parameters not passed on (NAMELINK, DESIGN.md 9.13)
+    from .. import namelink as _nl
+    rep.guard("C17-R6", _nl.rule, program, rep, "C17-R6",
+              sorted(program.modules))
     return finish(rep, program, EXPLANATION, NOT_DECIDED,
                   trusted=["the transfer functions of effects.py (which "
                            "builtins copy / alias / mutate)",
